@@ -1073,6 +1073,11 @@ func c20HarMenu(seed int64) []c20HarEntry {
 		// entries gen-bundle drops (a form POST, the status 0 browsers record for aborted requests) for the SAME URL
 		// as the plain GET entry "get": in whichever order they come, the GET stays
 		{id: "post-root", method: "POST", url: "https://a.test/", status: 200, respH: [][2]string{{"Content-Type", "text/plain"}}, body: []byte("posted to the root")},
+		// HTTP/2 pseudo headers that do NOT lead the header lists (HAR exporters keep the order of the wire or sort by name;
+		// proxies append their own): every ':' field is dropped wherever it stands
+		{id: "pseudo-late", method: "GET", url: "https://a.test/late", status: 200,
+			reqH:  [][2]string{{"Accept", "*/*"}, {":method", "GET"}, {":authority", "a.test"}},
+			respH: [][2]string{{"Content-Type", "text/plain"}, {":status", "200"}, {"X-Kept", "yes"}, {":x-proxy-info", "1"}}, body: []byte("pseudo headers after regular ones")},
 		{id: "status0-root", method: "GET", url: "https://a.test/", status: 0, respH: [][2]string{{"Content-Type", "text/html"}}, body: []byte("")},
 	}
 }
@@ -1765,7 +1770,7 @@ func init() {
 		Level: "model_checking",
 		Rule: "one execution = one pipeline of tool processes in a private directory; a transition = one process run; a state = the sorted (name, sha256) list of the files on disk after a run. " +
 			"C20/dir: every single file name of 13 classes (quick) / every single name and unordered pair of 19 names (thorough) x {b2 without base URL, b2/b1 x https://a.test/, https://a.test/base/} -> gen-bundle -dir -> dump-bundle -> inspection -> sign-bundle integrity-block twice -> sign-bundle signatures-section -> dump-bundle. " +
-			"C20/har: every sequence of <= 2 (quick) / <= 3 (thorough) entries from a 9-entry menu x {b2,b1} x {unsigned, signed}. C20/pipe: every sequence of <= 2 signing operations from a 5-operation menu (quick) / <= 3 from a 7-operation menu (thorough) on 3 base bundles. " +
+			"C20/har: every sequence of <= 2 (quick) / <= 3 (thorough) entries from a 10-entry menu x {b2,b1} x {unsigned, signed}. C20/pipe: every sequence of <= 2 signing operations from a 5-operation menu (quick) / <= 3 from a 7-operation menu (thorough) on 3 base bundles. " +
 			"C20/certurl: full product identity x chain length x SCT directory x OCSP file x input channel. C20/sxg: versions x response-header sets (full product) x deviation bound 1 / 2 over key form, record size, expiry, status, content length, date, chain, all-defaults. " +
 			"A case is non-trivial when tools were actually run on it (generator-side skips excluded); distinct by pipeline key.",
 		Assumptions: []string{
